@@ -652,9 +652,10 @@ def contexts(quick):
 INNERS = {
     "if-then": lambda body: [("If", ("Bin", V("a"), ">", I(0)), body, None)],
     "if-else": lambda body: [("If", ("Bin", V("a"), "<", I(0)), [call("p", I(9))], body)],
-    "for-body": lambda body: [("For", ("Sym", "a"), ("List", [V("a")]), body)],
-    "match-arm": lambda body: [("Match", call("Some", V("a")), [(("Some", ("Sym", "a")), body, True), (("None", None), [], True)])],
-    "closure": lambda body: [("Let", ("Sym", "g"), None, ("Lambda", [("a", T_INT)], None, body)), call("p", call("g", V("a")))],
+    # the inner binding of `a` differs from the outer one, so that hoisting an expression out of the body changes its value
+    "for-body": lambda body: [("For", ("Sym", "a"), ("List", [("Bin", V("a"), "+", I(1))]), body)],
+    "match-arm": lambda body: [("Match", call("Some", ("Bin", V("a"), "+", I(2))), [(("Some", ("Sym", "a")), body, True), (("None", None), [], True)])],
+    "closure": lambda body: [("Let", ("Sym", "g"), None, ("Lambda", [("a", T_INT)], None, body)), call("p", call("g", ("Bin", V("a"), "+", I(3))))],
     "while-body": lambda body: [("While", V("True"), body + [("Break",)])],
 }
 
